@@ -648,6 +648,11 @@ class Lib:
     # ----------------------------------------------------- attribute / methods
     def lib_getattr(self, ref, name):
         d = ref.dotted + '.' + name
+        if d == 'os.name':
+            return 'posix'      # platform assumption (listed in evidence)
+        if d == 'datetime.timezone.utc':
+            from . import models_time
+            return models_time.UTC
         if EXISTS is not None and d in EXISTS and EXISTS[d] is False:
             raise PyRaise(builtin_exc('AttributeError'), "module '%s' has no attribute '%s'" % (ref.dotted, name))
         return LibRef(d)
@@ -664,6 +669,13 @@ class Lib:
                 return ()
             if name == 'size':
                 return 1
+            return LibMethod(v, name)
+        if isinstance(v, Opaque) and v.name == 'datetime':
+            if name == 'tzinfo':
+                from . import models_time
+                if v.tz is None:
+                    return None
+                return models_time.UTC if v.tz == 'UTC' else Opaque('tzinfo', tzname=v.tz)
             return LibMethod(v, name)
         if isinstance(v, Opaque):
             if v.name == 'dtype':
@@ -716,6 +728,9 @@ class Lib:
         raise Unsupported('setattr on %r' % type(base))
 
     def obj_binop(self, op, a, b):
+        from . import models_time
+        if any(isinstance(x, Opaque) and x.name in ('datetime', 'timedelta') for x in (a, b)):
+            return models_time.dt_binop(self.I, op, a, b)
         for x in (a, b):
             if isinstance(x, Opaque) and hasattr(x, 'binop'):
                 return x.binop(self.I, op, a, b)
@@ -933,6 +948,8 @@ def _str(L, x=''):
         return str(x)
     if isinstance(x, Opaque) and hasattr(x, 'as_str'):
         return x.as_str(L.I)
+    if isinstance(x, Opaque) and x.name == 'tzinfo':
+        return x.tzname
     raise Unsupported('str(%r)' % type(x))
 
 
